@@ -36,7 +36,7 @@ GRecordAgrees == [][last'.a \in {"Begin", "End", "Marker", "Counter"} =>
                                                                           [] last'.a = "Marker" -> "i" [] last'.a = "Counter" -> "C",
                                                                      IF last'.a = "End" THEN "" ELSE last'.arg.name,
                                                                      IF last'.a \in {"Begin", "Marker"} THEN last'.arg.cat ELSE "",
-                                                                     IF last'.a = "Counter" THEN last'.arg.val ELSE 0))
+                                                                     IF last'.a = "Counter" THEN last'.arg.val ELSE NoVal))
                                       /\ last'.arg.t = t /\ phase[t] = "live" /\ phase' = phase /\ prec' = prec
                                       /\ \A u \in Threads \ {t} : rec'[u] = rec[u]]_vars
 ===============================================================================
